@@ -139,10 +139,16 @@ pub fn m_vec_push<T, A: core::alloc::Allocator>(v: &mut alloc::vec::Vec<T, A>, x
     unsafe { v.as_mut_ptr().add(n).write(x); v.set_len(n + 1); }
 }
 
+/// In alloc builds `decode::Error` carries a `String`; attaching a message allocates and formats.
+/// Messages are not observed by any C06 assertion (classes and positions are): the model drops them.
+#[cfg(feature = "alloc")]
+pub fn m_with_message<T: core::fmt::Display>(e: Error, _msg: T) -> Error { e }
+
 macro_rules! a1_harness {
     ($name:ident, $n:expr, $uw:expr) => {
         #[kani::proof]
         #[kani::unwind($uw)]
+        #[cfg_attr(feature = "alloc", kani::stub(minicbor::decode::Error::with_message, m_with_message))]
         #[cfg_attr(feature = "alloc", kani::stub(alloc::vec::Vec::new, m_vec_new))]
         #[cfg_attr(feature = "alloc", kani::stub(alloc::vec::Vec::push, m_vec_push))]
         #[kani::stub(minicbor::decode::Decoder::u64, m_u64)]
